@@ -203,6 +203,11 @@ def check(ctx, F):
     check_forward(ctx, F)
     from .common import check_accessors
     check_accessors(ctx, F, "C04.forward")        # the guard walk reads the requested prongs / bits through these accessors
+    # ... and an orthogonal region decides which sub-regions a guard round visits by CBits::get(prong) on that view
+    from . import C18, C03
+    if any(bb.get("cls") == "CBits" for bb in F.bodies.values()):
+        C18._FN["F"] = F
+        C18.check_single(C03._Alias(ctx, {"C18.single-bit": "C04.forward"}), F, classes=("CBits",))
     E = Effects(F)
     check_round(ctx, F, extras=True, E=E)
     check_rounds_once(ctx, F)
